@@ -327,6 +327,11 @@ func (s *session) continueUntilWait(sprint *sprint, currentRun flows.Run, node f
 	for {
 		// start by picking a destination node...
 
+		// a flow pushed by a run which has since failed (e.g. by a later action on the same node) is never entered
+		if s.pushedFlow != nil && currentRun != nil && currentRun.Status() == flows.RunStatusFailed {
+			s.pushedFlow = nil
+		}
+
 		// if a new flow has been pushed, find a destination there
 		if s.pushedFlow != nil {
 			// if this is terminal, then we need to mark all other runs as completed so we don't try to resume them
